@@ -13,6 +13,7 @@ def parse (t : List String) : Option Op :=
   | ["csub", s, b, h] => some (.csub (nat! s) (optNat b) (optNat h))
   | ["dsub", s] => some (.dsub (nat! s))
   | ["loan", p, l] => some (.loan (nat! p) (nat! l))
+  | ["loans", p, l, _len] => some (.loan (nat! p) (nat! l))   -- slice payload: the length is not part of the model
   | ["send", p, l, tag] => some (.send (nat! p) (nat! l) (nat! tag))
   | ["dloan", p, l] => some (.dloan (nat! p) (nat! l))
   | ["recv", s] => some (.recv (nat! s))
@@ -30,7 +31,7 @@ def stepLine (w : Option SWorld) (t : List String) : Option SWorld × String :=
       if ov ≠ "1" ∧ clamp1 (nat! b) < nat! h then (none, "err:service:SubscriberBufferMustBeLargerThanHistorySize") else
       let cfg : Cfg := { maxPubs := clamp1 (nat! mp), maxSubs := clamp1 (nat! ms), bufMax := clamp1 (nat! b),
                          hist := nat! h, borrowMax := clamp1 (nat! r), overflow := ov = "1", expired := nat! e }
-      (some (SWorld.init cfg (variant == "ipc")), "ok")
+      (some (SWorld.init cfg (variant == "ipc" || variant == "ipc-slice")), "ok")
   | _ =>
     match w with
     | none => (none, "no-world")
